@@ -17,12 +17,13 @@ func init() { Registry["C04"] = c04 }
 // truth is in the shape of the code are decided (see DESIGN 4/C04): scale consistency of the feedback
 // path (units-of-measure inference), provenance of the fed-back value, monotonicity of the steady value.
 func c04(c *Ctx) {
-	c.R.Explanation = "C04: three structural clauses are decided on the SSA of /repo; the dynamics are not. R-scale (engine E7, units-of-measure inference): every numeric value of the controller and control-loop packages gets a dimension vector over {loop scale 0..255, fan scale [min,max]/raw PWM}; +, -, phi, store/load of fields and cells, argument/parameter binding (helpers instantiated per call site) generate equalities, * and / add/subtract vectors, literals and unmodelled operations are free variables. Seeds come from the interfaces only: SpeedCurve.Evaluate -> loop; ControlLoop.Cycle(loop, loop) -> loop (also imposed on its implementations); Fan.GetPwm/GetMinPwm/GetMaxPwm/GetStartPwm -> fan; Fan.SetPwm/SetMinPwm/SetMaxPwm/SetStartPwm(fan). The system is solved by elimination; an impossible equality is a violation at the instruction that introduced it. This is a necessary condition of 'the steady request is determined by the curve value and the fan limits alone, identically with and without maxPwmChangePerCycle': a fan-scaled value fed back as the loop's current value moves the fixed point (the pinned tree did exactly that: min 100, curve 0, limit 10 -> 154, 187, ... 237; fixed in /repo, see KNOWN_FINDINGS). R-feedback: the value handed to Cycle as `current` comes (apart from a first-cycle initialiser) from a controller field whose every store is the (clamped) result of Cycle, and that store is passed on every path from the Cycle call to a successful return. R-mono-steady (engine E8): the request is non-decreasing in the curve value through the direct loop, clamp and rescale. NOT decided: settling time and its independence of history, PID wind-up and 'within one step' for PID, exact equality of fixed points, the per-cycle difference bound in fan scale, monotone approach."
+	c.R.Explanation = "C04: three structural clauses are decided on the SSA of /repo; the dynamics are not. R-scale (engine E7, units-of-measure inference): every numeric value of the controller and control-loop packages gets a dimension vector over {loop scale 0..255, fan scale [min,max]/raw PWM}; +, -, phi, store/load of fields and cells, argument/parameter binding (helpers instantiated per call site) generate equalities, * and / add/subtract vectors, literals and unmodelled operations are free variables. Seeds come from the interfaces only: SpeedCurve.Evaluate -> loop; ControlLoop.Cycle(loop, loop) -> loop (also imposed on its implementations); Fan.GetPwm/GetMinPwm/GetMaxPwm/GetStartPwm -> fan; Fan.SetPwm/SetMinPwm/SetMaxPwm/SetStartPwm(fan). The system is solved by elimination; an impossible equality is a violation at the instruction that introduced it. This is a necessary condition of 'the steady request is determined by the curve value and the fan limits alone, identically with and without maxPwmChangePerCycle': a fan-scaled value fed back as the loop's current value moves the fixed point (the pinned tree did exactly that: min 100, curve 0, limit 10 -> 154, 187, ... 237; fixed in /repo, see KNOWN_FINDINGS). R-feedback: the value handed to Cycle as `current` comes (apart from a first-cycle initialiser) from a controller field whose every store is the (clamped) result of Cycle, and that store is passed on every path from the Cycle call to a successful return. R-mono-steady (engine E8): the request is non-decreasing in the curve value through the direct loop, clamp and rescale. R-clock: a control-loop routine that measures elapsed time against a remembered time stamp (the PID loop's dt) stores this activation's time.Now() into that field on every path to a return - otherwise the next dt spans the whole idle period and the integral winds up in proportion to how long nothing happened ('depends only on the settings, not on what happened before'). NOT decided: settling time itself, PID wind-up bounds and 'within one step' for PID, exact equality of fixed points, the per-cycle difference bound in fan scale, monotone approach."
 	c.R.Assumptions = append(c.R.Assumptions,
 		"dimension seeds are the documented meaning of the Fan, SpeedCurve and ControlLoop interfaces",
 		"literals and values from unmodelled operations may take any dimension (they can never cause a report)")
 	c.ruleScale("R-scale")
 	c.ruleFeedback("R-feedback")
+	c.ruleClock("R-clock")
 	c.monoDirectLoop("R-mono-steady")
 	c.monoRegulation("R-mono-steady")
 	c.R.Require("R-mono-steady", 4)
@@ -171,6 +172,14 @@ func (c *Ctx) ruleFeedback(rule string) {
 						fields[n] = true
 						return
 					}
+				case *ssa.Call:
+					// a helper of the controller that selects the feedback value: look at what it returns
+					if cal := ir.Callee(x).Static; cal != nil && load_FuncPkgPath(cal) == PkgCtrl && len(cal.Blocks) > 0 && cal.Signature.Results().Len() == 1 && !x.Call.IsInvoke() {
+						for _, rt := range ir.Returns(cal) {
+							walk(rt.Results[0], depth+1)
+						}
+						return
+					}
 				}
 				others++
 			}
@@ -213,11 +222,12 @@ func (c *Ctx) ruleFeedback(rule string) {
 				ei := errResultIndex(fn)
 				missed := false
 				ir.Search{StopInstr: func(ins ssa.Instruction) bool {
-					if st, ok := ins.(*ssa.Store); ok {
-						if fa, ok := st.Addr.(*ssa.FieldAddr); ok {
-							if _, n, _ := ir.FieldName(fa); n == name {
-								return true
-							}
+					if isStoreToField(ins, name) {
+						return true
+					}
+					if cc, ok := ins.(ssa.CallInstruction); ok {
+						if cal := ir.Callee(cc).Static; cal != nil && load_FuncPkgPath(cal) == PkgCtrl && mustStoreField(cal, name, 2) {
+							return true
 						}
 					}
 					return false
@@ -285,7 +295,7 @@ func isLoopOutputTerm(t *ir.Term) bool {
 				n++
 			}
 			return n > 0
-		case t.Op == "convert" && len(t.Args) == 1:
+		case (t.Op == "convert" || strings.HasPrefix(t.Op, "conv:")) && len(t.Args) == 1:
 			return ok(t.Args[0], depth+1)
 		case t.Op == "call:math.Min" || t.Op == "call:math.Max" || t.Op == "builtin:min" || t.Op == "builtin:max" || strings.HasSuffix(t.Op, "util.Coerce"):
 			n := 0
@@ -305,4 +315,117 @@ func isLoopOutputTerm(t *ir.Term) bool {
 		return false
 	}
 	return ok(t, 0)
+}
+
+// ruleClock: routines under ControlLoop.Cycle that compute elapsed time against a remembered stamp
+// refresh the stamp on every path.
+func (c *Ctx) ruleClock(rule string) {
+	var roots []*ssa.Function
+	roots = append(roots, c.ImplMethods(PkgLoop, "ControlLoop", "Cycle")...)
+	tree := c.Closure(roots, false, func(f *ssa.Function) bool {
+		p := load_FuncPkgPath(f)
+		return p != PkgLoop && p != PkgUtil
+	})
+	n := 0
+	for _, fn := range c.SortedFuncs(tree) {
+		if len(fn.Blocks) == 0 || fn.Signature.Recv() == nil {
+			continue
+		}
+		// fields of the receiver holding a time stamp that elapsed time is measured against
+		stamps := map[string]bool{}
+		var nowCalls []ssa.Value
+		Calls(fn, func(cc ssa.CallInstruction) {
+			name := ir.CallName(cc)
+			if call, ok := cc.(*ssa.Call); ok && name == "time.Now" {
+				nowCalls = append(nowCalls, call)
+			}
+			if name != "(time.Time).Sub" && name != "time.Since" {
+				return
+			}
+			for _, a := range cc.Common().Args {
+				if u, ok := ir.Resolve(a).(*ssa.UnOp); ok {
+					if fa, ok := u.X.(*ssa.FieldAddr); ok {
+						if _, fname, ok := ir.FieldName(fa); ok {
+							stamps[fname] = true
+						}
+					}
+				}
+			}
+		})
+		for name := range stamps {
+			n++
+			fk := c.FK(fn)
+			c.R.Note("functions", fk)
+			key := fk + "|" + name
+			isRefresh := func(ins ssa.Instruction) bool {
+				st, ok := ins.(*ssa.Store)
+				if !ok {
+					return false
+				}
+				fa, ok := st.Addr.(*ssa.FieldAddr)
+				if !ok {
+					return false
+				}
+				if _, fname, _ := ir.FieldName(fa); fname != name {
+					return false
+				}
+				v := ir.Resolve(st.Val)
+				for _, nc := range nowCalls {
+					if v == nc {
+						return true
+					}
+				}
+				return false
+			}
+			var missed *ssa.Return
+			ir.Search{StopInstr: isRefresh}.Reach([]ir.Point{{Block: fn.Blocks[0], Idx: 0}}, func(ins ssa.Instruction, _ *ssa.BasicBlock) {
+				if rt, ok := ins.(*ssa.Return); ok && missed == nil {
+					missed = rt
+				}
+			})
+			if missed != nil {
+				c.R.Bad(rule, key, fk, c.P.Pos(missed.Pos()), "elapsed time is measured against field "+name+", but this return is reachable without storing the current time.Now() into it: after an idle period the next dt covers the whole period (history-dependent wind-up)")
+			} else {
+				c.R.Ok(rule, key, fk, c.P.Pos(fn.Pos()), "every path to a return stores this activation's time.Now() into "+name+", the stamp elapsed time is measured against")
+			}
+		}
+	}
+	if n == 0 {
+		c.R.Excluded(rule, "none", PkgLoop, "-", "no control-loop routine measures elapsed time against a remembered stamp")
+	}
+}
+
+func isStoreToField(ins ssa.Instruction, name string) bool {
+	if st, ok := ins.(*ssa.Store); ok {
+		if fa, ok := st.Addr.(*ssa.FieldAddr); ok {
+			if _, n, _ := ir.FieldName(fa); n == name {
+				return true
+			}
+		}
+	}
+	return false
+}
+
+// mustStoreField: every path through fn to a return stores the field (directly or through a callee that must).
+func mustStoreField(fn *ssa.Function, name string, depth int) bool {
+	if len(fn.Blocks) == 0 {
+		return false
+	}
+	missed := false
+	ir.Search{StopInstr: func(ins ssa.Instruction) bool {
+		if isStoreToField(ins, name) {
+			return true
+		}
+		if cc, ok := ins.(ssa.CallInstruction); ok && depth > 0 {
+			if cal := ir.Callee(cc).Static; cal != nil && cal != fn && load_FuncPkgPath(cal) == load_FuncPkgPath(fn) && mustStoreField(cal, name, depth-1) {
+				return true
+			}
+		}
+		return false
+	}}.Reach([]ir.Point{{Block: fn.Blocks[0], Idx: 0}}, func(ins ssa.Instruction, _ *ssa.BasicBlock) {
+		if _, ok := ins.(*ssa.Return); ok {
+			missed = true
+		}
+	})
+	return !missed
 }
